@@ -373,3 +373,28 @@ Qed.
 
 Lemma conv_wf_pd want v r : pd_ty want = true -> wf v -> conv v want = COk r -> wf r.
 Proof. unfold conv. intros. eapply convert_wf_pd; eassumption. Qed.
+
+(* ---- conversion preserves well-formedness (all target types) -------------------------------------- *)
+Lemma all_ok_inv l : forall vs, all_ok l = inl (Some vs) -> Forall2 (fun c v => c = COk v) l vs.
+Proof.
+  induction l as [|c r IH]; intros vs E; cbn [all_ok fold_right] in E.
+  - injection E as <-. constructor.
+  - fold (all_ok r) in E. destruct (all_ok r) as [[ws|]|e]; try discriminate E.
+    destruct c; try discriminate E. injection E as <-. constructor; [reflexivity|apply IH; reflexivity].
+Qed.
+
+Lemma finish_unknown_wf t r : wf (finish_unknown t r).
+Proof.
+  unfold finish_unknown, wf.
+  repeat match goal with
+         | |- context [match ?y with _ => _ end] => destruct y
+         | |- context [if ?y then _ else _] => destruct y
+         end; try reflexivity; cbn [wfb];
+    match goal with |- forallb wfb (repeatZ ?x ?n) = true => induction n; cbn; auto end.
+Qed.
+
+Lemma wf_list_of (l : list val) : Forall wf l -> forallb wfb l = true.
+Proof. induction 1; cbn [forallb]; [reflexivity|]. apply andb_true_iff; split; assumption. Qed.
+Lemma wf_list_to (l : list val) : forallb wfb l = true -> Forall wf l.
+Proof. intro H. apply Forall_forall. rewrite forallb_forall in H. exact H. Qed.
+
